@@ -142,10 +142,10 @@ def run_shard(desc) -> Acc:
             raised = None
             try:
                 await app._watchdog_feed()
-            except (asyncio.TimeoutError, EzspError) as ex:
+            except asyncio.CancelledError:
+                raise
+            except Exception as ex:  # noqa: BLE001 - "a feed raises - asking zigpy to restart the radio": which exception is open
                 raised = ex
-            except BaseException as ex:  # noqa: BLE001
-                acc.violation("C19/feed/unexpected-exception", f"feed raised {ex!r}", case)
                 raised = ex
             if sym == "X":
                 ez.start_ezsp()
@@ -170,7 +170,9 @@ def run_shard(desc) -> Acc:
             # keep-alive command identity
             if sym not in ("X", "C"):
                 if V == 4:
-                    if cmds[:1] != ["nop"] or len(cmds) != 1:
+                    # the keep-alive is a no-op command: it comes first, and no counter read is made on v4 (further
+                    # diagnostic reads after it are not the keep-alive)
+                    if cmds[:1] != ["nop"] or any(c_ in ("readCounters", "readAndClearCounters") for c_ in cmds):
                         acc.violation("C19/keepalive/not-nop-on-v4", f"v4 feed issued {cmds}", case)
                     else:
                         acc.hit("v4_nop")
